@@ -192,6 +192,9 @@ class HeapMixin:
                 return V(TPy("bound"), ("bound", base, mci, mnode))
             if attr in ci.class_consts:
                 return self.eval_class_const(ci, attr, st)
+            if attr in ("emit", "remove_all_listeners", "on", "once", "listeners", "remove_listener"):
+                # pyee event-emitter API inherited from an external base class
+                return V(TPy("emitter"), ("emitter", base, attr))
             raise Unsupported(f"unknown attribute {t.cls}.{attr} (declare it in the class sidecar)")
         if isinstance(t, (TBytes, TStr, TList, TDict, TSet, TSeq, TInt, TReal, TTuple)):
             return V(TPy("bmeth"), ("bmeth", base, attr))
